@@ -54,6 +54,27 @@ fn main() {
 		"replay" => {
 			let path = args.get(2).cloned().unwrap_or_else(|| usage());
 			let file = vh::engine::read_json_file(std::path::Path::new(&path));
+			if let Some(t) = file["subcheck"].as_str().and_then(|s| s.strip_prefix("fuzz:")) {
+				let bytes = std::fs::read(file["bytes_file"].as_str().unwrap_or("")).unwrap_or_default();
+				let r = match t {
+					"c01_server_msg" => vh::props::c01::bytes_oracle(&bytes),
+					"c09_client_rx" => vh::props::c09::bytes_oracle(&bytes),
+					"c15_response" => vh::props::c15::response_bytes_oracle(&bytes),
+					"c16_params" => vh::props::c16::params_bytes_oracle(&bytes),
+					"c14_host" => [&["example.com:8080", "*.web3.site:*"][..], &["https://a.example.com"][..], &["localhost:*", "127.0.0.1:9944", "[::1]:80"][..]].iter().find_map(|a| vh::props::c14::host_bytes_oracle(a, &bytes)),
+					_ => None,
+				};
+				match r {
+					Some(d) => {
+						println!("replay: FAIL fuzz/{t} — {d}");
+						std::process::exit(1)
+					}
+					None => {
+						println!("replay: PASS (no failure)");
+						std::process::exit(0)
+					}
+				}
+			}
 			for e in vh::registry() {
 				if file["property"].as_str() == Some(e.id) {
 					match (e.replay)(&file) {
